@@ -114,7 +114,24 @@ def configure(prog, rep, tag):
         for s in sends:
             w = Prov(b, follow_all=FOLLOW).of_operand(s.args[0])
             okl = okl and any(r[0] == "call" and r[1].endswith("::next") for r in w)
-    rep.ob(P, "only-dc-devices" + tag, okf and okl, "every register write addresses the loop variable of iter().filter(|s| s.dc_support().any() && dc_sync != Disabled)", loc=b.span)
+    # the same selection written as a guard inside the loop (`if !dc_support().any() || disabled { continue }`): within
+    # one iteration no register write is feasible after any() returned false, nor on the Disabled edge of a test of the
+    # device's DcSync
+    okB = False
+    nxt_all = [c for c in b.calls() if c.is_("Iterator::next")]
+    if not (okf and okl) and nxt_all and sends:
+        stop = {c.bb for c in nxt_all}
+        anys = [c for c in b.calls() if (c.decl_s or "").endswith("::any") and any(x[0] == "call" and x[1].endswith("dc_support") for x in pr.of_operand(c.args[0]))]
+        c1 = bool(anys) and all(not any(s_.bb in q.BoolFlow(b, c.target, 0, {c.dest["l"]: 0}, avoid=stop).in_state for s_ in sends) for c in anys if c.target is not None)
+        c2 = False
+        for cd in q.conds(b):
+            if cd.kind == "discr" and "DcSync" in (cd.enum_ty or ""):
+                t = cd.variant_targets(prog).get("Disabled")
+                if t is not None and not any(s_.bb in q.BoolFlow(b, t, 0, {}, avoid=stop).in_state for s_ in sends):
+                    c2 = True
+        c3 = all(any(r[0] == "call" and r[1].endswith("::next") for r in Prov(b, follow_all=FOLLOW).of_operand(s_.args[0])) for s_ in sends)
+        okB = c1 and c2 and c3
+    rep.ob(P, "only-dc-devices" + tag, (okf and okl) or okB, "every register write addresses a device for which dc_support().any() held and dc_sync is not Disabled (iterator filter, or a guard at the top of the loop body)", loc=b.span)
     # e. register table
     regvals = {}
     order = []
